@@ -870,6 +870,34 @@ pub fn run_common(ctx: &mut Ctx, targets: &'static [Tgt], check: fn(&Value) -> V
         }
         other => other,
     });
+    // ---- a struct converted to its base (Metal only: the HLSL text keeps the cast between two flattened structs, whose
+    // meaning there is not modelled)
+    if msl {
+        const BASES: [(&str, &str, &str); 4] = [
+            ("int za;", "d.za = k;", "b.za"),
+            ("int za; float zb;", "d.za = k; d.zb = x;", "b.za + (int)b.zb"),
+            ("float2 za; int zb[2];", "d.za = float2(x, x + 1.0); d.zb[0] = k; d.zb[1] = k + 1;", "(int)b.za.y + b.zb[1]"),
+            ("ZI zi; int za;", "d.zi.zq = k; d.zi.zr = x; d.za = 7;", "b.zi.zq + (int)b.zi.zr + b.za"),
+        ];
+        const USES: [&str; 4] = ["ZB b = (ZB)d;", "ZB b = zbase(d);", "ZB b; b = (ZB)d;", "ZB b = ztake((ZB)d);"];
+        let make = |i: u64| {
+            let (members, fill, sum) = BASES[(i % 4) as usize];
+            let usage = USES[((i / 4) % 4) as usize];
+            let src = format!(
+                "struct ZI {{ int zq; float zr; }};\nstruct ZB {{ {} }};\nstruct ZD : ZB {{ int zc; float zd; }};\nZB zbase(ZD d) {{ return (ZB)d; }}\nZB ztake(ZB b) {{ return b; }}\nint zuse(int k, float x) {{\n    ZD d;\n    {}\n    d.zc = k + 100;\n    d.zd = x * 2.0;\n    {}\n    return {} + d.zc;\n}}\n",
+                members, fill, usage, sum
+            );
+            record(&src, Tgt::Msl, 0x1be0 ^ i)
+        };
+        ctx.run_enum("base_struct_conversions", 16, true, make, |i| match check(&make(i)) {
+            Verdict::Pass { nontrivial, mut labels } => {
+                labels.retain(|l| !l.starts_with("compared_functions"));
+                labels.push("base_struct_conversion".into());
+                Verdict::Pass { nontrivial, labels }
+            }
+            other => other,
+        });
+    }
     // ---- generated programs
     let prof = if msl { progen::Profile::exec_msl() } else { progen::Profile::exec_hlsl() };
     let n_t = targets.len();
